@@ -136,6 +136,8 @@ def module_changes(before, after):
     return sorted(out)
 
 
+_STATE = {}       # last module-state snapshot (reused as the next 'before')
+
 SENTINEL = '// C18 sentinel: no output written\n'
 
 
@@ -181,7 +183,7 @@ def one_run(run, directory):
     env_log = []
     real_environ = os.environ
     repo = os.path.realpath(os.environ.get('T4GC_REPO', '/repo'))
-    state_before = module_state()
+    state_before = _STATE.get('last') or module_state()
     os.environ = LogEnviron(real_environ, repo, env_log)
     try:
         with contextlib.redirect_stdout(buf), contextlib.redirect_stderr(buf), \
@@ -199,7 +201,9 @@ def one_run(run, directory):
         sys.argv = old_argv
         os.chdir(old_cwd)
     res['env_reads'] = sorted(set(env_log))
-    res['module_changes'] = module_changes(state_before, module_state())
+    state_after = module_state()
+    res['module_changes'] = module_changes(state_before, state_after)
+    _STATE['last'] = state_after
     text = out.read_text(encoding='utf-8', errors='surrogateescape') \
         if out.exists() else None
     if text == SENTINEL:
@@ -242,6 +246,7 @@ def main():
             # instead of a cold start (a sample of decks is also run in
             # cold-started processes by the parent)
             import t4_geom_convert.main     # noqa: F401  pylint: disable=W0611
+            _STATE['last'] = module_state()     # inherited by every child
             for k, run in enumerate(jobs['runs']):
                 directory = root / f'run{k}'
                 directory.mkdir()
